@@ -134,6 +134,8 @@ class TorchCalls(TorchOps):
             a, b = args
             if isinstance(a, ClassV) and isinstance(b, ClassV):
                 return Const(b.cls in a.cls.mro)
+            if isinstance(a, ClassV) and isinstance(b, ExtV):
+                return Const(b.name in a.cls.external_bases or b.name == "builtins.object")
             return TV(kind="pybool", dtype="Bool")
         if fn == "type":
             v = args[0]
@@ -337,6 +339,9 @@ class TorchCalls(TorchOps):
         I = self.interp
         if isinstance(recv, SuperV):
             return self.super_call(recv, name, args, kwargs, node, env)
+        if isinstance(recv, ClassV) and name == "mro":
+            ext = [ExtV(b) for b in recv.cls.external_bases if not b.startswith("typing.") and not b.endswith("Generic")]
+            return ListV(items=tuple(ClassV(c) for c in recv.cls.mro) + tuple(ext) + (ExtV("builtins.object"),), kind="list")
         if isinstance(recv, ObjV):
             if recv.payload is not None:
                 return self.dict_method(recv.payload, name, args, kwargs, node, env, owner=recv)
